@@ -32,6 +32,14 @@ JOBS += [
     dict(name='c04_traverse', props=['C04', 'C17'], entry='h_traverse', enforce='traverse_schema_recursive', replace=[TW],
          min_loop_obligations=1, wip=False, **FR),
 ]
+# overlay-free bounded whole-tree stand-in (cannot drift): every well-formed element list with <= N elements, any labels (the root's
+# label included), real recursion: build_schema == textbook definition (specs/schema_spec.h)
+for _n, _tier, _est in ((2, 'quick', 30),):   # n = 3: cbmc does not finish in 900 s (recursion x loops), as recorded below
+    JOBS.append(dict(name='c17_file_schema_spec_n%d' % _n, props=['C17'], entry='h_file_schema_spec', harness='harness/C17/file_schema.c', overlays=[],
+                     loop_contracts=False, unwind=_n + 2, defines=['CQV_REAL_REC=1', 'CQV_N=%d' % _n], level='bounded', tier=_tier, est_s=_est, timeout=900,
+                     bound='element lists with <= %d elements (root included), every shape and every repetition label' % _n,
+                     extra_sources=FR['extra_sources'], includes=['.'], trusted=[FR['trusted'][0]], backend=['cadical', 'sat'],
+                     functions=['build_schema', 'compute_levels', 'traverse_schema_recursive', 'count_leaves'], wip=False))
 # c17_file_schema_spec (whole-tree bounded equality with specs/schema_spec.h, harness h_file_schema_spec under CQV_REAL_REC) was DROPPED:
 # recursion x loop unwinding does not close (n<=4: timeout 280 s; n<=3: 180 s then out of memory).  The equality is covered case-wise by
 # c17_traverse_leaf (leaf levels), c04_traverse (children receive level + contribution, progress, depth) and c04_build_schema (root children 0/0).
